@@ -34,6 +34,16 @@ func runMutants(id string, r *Report, repo, verif string) {
 			}
 		}
 	}
+	// bounded: the changes written against this very property first, then others that also make it fire, 24 in all
+	// (the full matrix over all recorded changes is tools/seed_matrix.sh; its last result is seeded/MATRIX.txt)
+	available := len(todo)
+	sort.SliceStable(todo, func(i, j int) bool {
+		oi, oj := strings.Contains(filepath.Base(todo[i]), id), strings.Contains(filepath.Base(todo[j]), id)
+		return oi && !oj
+	})
+	if len(todo) > 24 {
+		todo = todo[:24]
+	}
 	self, err := os.Executable()
 	if err != nil || len(todo) == 0 {
 		r.Extra["witness_mutants"] = map[string]interface{}{"available": len(todo), "note": "none recorded for this property"}
@@ -102,7 +112,7 @@ func runMutants(id string, r *Report, repo, verif string) {
 		}
 	}
 	r.Extra["witness_mutants"] = map[string]interface{}{
-		"available": len(todo), "applied": fired + silent, "fired": fired, "silent": silent, "skipped_not_applicable": skipped,
+		"available": available, "selected": len(todo), "applied": fired + silent, "fired": fired, "silent": silent, "skipped_not_applicable": skipped,
 		"fired_names": firedNames, "silent_names": silentNames,
 		"note": "seeded breaking changes (see seeded/*/meta.json) applied to a scratch copy of the current tree; the quick check must report a violation on the copy",
 	}
